@@ -110,7 +110,7 @@ func (d *deleg) Load(k interface{}) (interface{}, bool) {
 	}
 	return d.inner.Load(k)
 }
-func (d *deleg) Store(k, v interface{})                  { d.inner.Store(k, v) }
+func (d *deleg) Store(k, v interface{}) { d.inner.Store(k, v) }
 
 type missCache struct{}
 
@@ -301,7 +301,9 @@ func run(c *runner.Ctx) {
 				}
 				c.Done(nt, len(seq))
 				c.Outcome("ok")
-				c.Sample(func() interface{} { return map[string]interface{}{"config": cf.name, "start": st.name, "sequence": strings.Join(trace, " ; ")} })
+				c.Sample(func() interface{} {
+					return map[string]interface{}{"config": cf.name, "start": st.name, "sequence": strings.Join(trace, " ; ")}
+				})
 			})
 		}
 	}
